@@ -250,6 +250,41 @@ def diff_obs(a, b, ignore=("nonfinite", "trace"), only=None):
 
 last_stderr = ""
 
+def split_cases(text, nchunks):
+    """split a case file into nchunks files' worth of text at CASE boundaries"""
+    parts = text.split("\nCASE ")
+    cases = [parts[0]] + ["CASE " + p_ for p_ in parts[1:]]
+    cases = [c if c.endswith("\n") else c + "\n" for c in cases if c.strip()]
+    k = max(1, min(nchunks, len(cases)))
+    size = (len(cases) + k - 1) // k
+    return ["".join(cases[i:i + size]) for i in range(0, len(cases), size)]
+
+def run_bin_chunked(exe, text, workdir, tag, args=(), timeout=900, env=None, nchunks=None):
+    """run a driver over a large case set in parallel chunks; returns (rc, concatenated stdout)"""
+    from concurrent.futures import ThreadPoolExecutor
+    ncases = text.count("\nCASE ") + 1
+    if nchunks is None: nchunks = 1 if ncases < 400 else NPROC
+    chunks = split_cases(text, nchunks)
+    files = []
+    for i, ch in enumerate(chunks):
+        f = os.path.join(workdir, "%s.%d.cases" % (tag, i)); open(f, "w").write(ch); files.append(f)
+    def one(f):
+        e = dict(os.environ)
+        if env: e.update(env)
+        try:
+            p = subprocess.run([exe] + list(args) + [f], env=e, timeout=timeout, stdout=subprocess.PIPE, stderr=subprocess.PIPE, universal_newlines=True, errors="replace")
+            return p.returncode, p.stdout, p.stderr
+        except subprocess.TimeoutExpired:
+            return 124, "", "[timeout after %ss]" % timeout
+    with ThreadPoolExecutor(max_workers=NPROC) as ex:
+        res = list(ex.map(one, files))
+    global last_stderr
+    last_stderr = "".join(r[2] for r in res)
+    rc = max([r[0] for r in res] + [0], key=abs) if res else 0
+    out = "".join(r[1] for r in res)
+    if rc != 0: out += "\n[stderr] " + last_stderr[-800:]
+    return rc, out
+
 def run_bin(exe, casefile, args=(), timeout=600, env=None):
     """run a driver; stdout only (the library prints warnings on stderr)"""
     e = dict(os.environ)
